@@ -32,6 +32,10 @@ class BlockLinearOperator(LinearOperator):
             The dimension that specifies blocks.
     """
 
+    # Does slicing rows/columns at multiples of `num_blocks` yield an operator of the same class over the sliced
+    # base operator?  True only for the interleaved layout (BlockInterleavedLinearOperator).
+    _aligned_slices_keep_structure = False
+
     def __init__(self, base_linear_op, block_dim=-3):
         if base_linear_op.dim() < 3:
             raise RuntimeError(
@@ -76,6 +80,10 @@ class BlockLinearOperator(LinearOperator):
             # It's too complicated to deal with tensor indices in this case - we'll use the super method
             return super()._getitem(row_index, col_index, *batch_indices)
 
+        # The strided fast path below is only valid for the interleaved layout (row = i * num_blocks + block)
+        if not self._aligned_slices_keep_structure:
+            return super()._getitem(row_index, col_index, *batch_indices)
+
         # Now we know that row_index and col_index
         num_blocks = self.num_blocks
         num_rows, num_cols = self.matrix_shape
@@ -96,8 +104,8 @@ class BlockLinearOperator(LinearOperator):
         row_index = slice(row_start // num_blocks, row_end // num_blocks, None)
         col_index = slice(col_start // num_blocks, col_end // num_blocks, None)
 
-        # Now we can try the super call!
-        new_base_linear_op = self.base_linear_op._getitem(row_index, col_index, *batch_indices)
+        # Now we can try the super call! (the block dimension of the base operator is not indexed)
+        new_base_linear_op = self.base_linear_op._getitem(row_index, col_index, *batch_indices, _noop_index)
 
         # Now construct a kernel with those indices
         return self.__class__(new_base_linear_op, block_dim=-3)
